@@ -7,13 +7,24 @@ package main
 //
 // The analysis is a definite-assignment pass over the statements of the function
 // that contains the Get (resp. Put):
-//   x.f = nil|false|0|""|T{}      -> KZero
+//   x.f = nil|false|0|""|T{}|make(T, 0[, c]) -> KZero (visibly empty)
 //   x.f = x.f[:0]                 -> KTrunc
 //   x.f = <anything else>         -> KVal
-//   x.m()  (m a pointer method of the struct in the same package) -> m's body, inlined
+//   x.m()  (m a pointer method of the struct in the same package) -> m's body, inlined;
+//                                    the states at its early returns are merged with the
+//                                    state at its end (all of them continue in the caller)
 //   if/else, switch               -> branch-wise, merged (a field assigned in only one
 //                                    branch is NOT definitely assigned; a KVal in one
-//                                    branch overrides an earlier clearing)
+//                                    branch overrides an earlier clearing; KZero and
+//                                    KTrunc merge to KTrunc: visibly empty on both paths)
+//   ... whose condition reads the pooled object itself (a field that has not been
+//   assigned yet - cap(x.bs) > max, len(x.cores) > 4, x.dirty - or x passed to a
+//   function), and whose branches leave a field in DIFFERENT states
+//                                 -> KDep: the field is assigned on every path, but WHICH
+//                                    value it gets depends on the state the previous user
+//                                    left the object in (a size guard that re-allocates
+//                                    instead of resetting, a fast path for "small" objects).
+//                                    Every path through a Get must end in the same state.
 //   for/range                     -> body may run zero times (merged with the state before)
 //   x passed on (argument, return value, unknown method) -> acquire analysis stops;
 //                                    release analysis forgets everything known so far
@@ -60,9 +71,10 @@ const (
 	sZero
 	sTrunc
 	sVal
+	sDep // assigned on every path, differently on paths selected by the recycled object's own state
 )
 
-func (s fstate) coq() string { return [...]string{"", "KZero", "KTrunc", "KVal"}[s] }
+func (s fstate) coq() string { return [...]string{"", "KZero", "KTrunc", "KVal", "KDep"}[s] }
 
 type env map[string]fstate
 
@@ -74,27 +86,32 @@ func (e env) clone() env {
 	return c
 }
 
-func mergeState(a, b fstate) fstate {
+// dep: the paths being merged were selected by a condition that reads the pooled object's residual state
+func mergeState(a, b fstate, dep bool) fstate {
 	if a == b {
 		return a
 	}
 	if a != sUnset && b != sUnset {
+		if (a == sZero || a == sTrunc) && (b == sZero || b == sTrunc) {
+			return sTrunc // nil on one path, [:0] on the other: visibly empty on both
+		}
+		if dep || a == sDep || b == sDep {
+			return sDep
+		}
 		return sVal
 	}
-	if a == sVal || b == sVal { // assigned a value on one path only: not cleared, not definitely set
-		return sUnset
-	}
+	// assigned on one path only: not cleared, not definitely set
 	return sUnset
 }
 
-func mergeEnv(a, b env) env {
+func mergeEnv(a, b env, dep bool) env {
 	out := env{}
 	for k, v := range a {
-		out[k] = mergeState(v, b[k])
+		out[k] = mergeState(v, b[k], dep)
 	}
 	for k, v := range b {
 		if _, ok := a[k]; !ok {
-			out[k] = mergeState(sUnset, v)
+			out[k] = mergeState(sUnset, v, dep)
 		}
 	}
 	for k, v := range out {
@@ -103,6 +120,53 @@ func mergeEnv(a, b env) env {
 		}
 	}
 	return out
+}
+
+// does the expression read the pooled object's residual state: a field x.f that has not been assigned
+// since the Get (resp. is not known at this point of the release path), a method of x, or x itself
+// handed to a function?  Comparing the pointer x with nil does not.
+func readsResidual(n ast.Node, x string, e env) bool {
+	if n == nil {
+		return false
+	}
+	found := false
+	var walk func(n ast.Node)
+	walk = func(n ast.Node) {
+		if n == nil || found {
+			return
+		}
+		switch v := n.(type) {
+		case *ast.SelectorExpr:
+			if id, ok := v.X.(*ast.Ident); ok && id.Name == x {
+				if st, ok := e[v.Sel.Name]; !ok || st == sUnset || st == sDep {
+					found = true
+				}
+				return
+			}
+			walk(v.X)
+			return
+		case *ast.BinaryExpr:
+			if id, ok := v.X.(*ast.Ident); ok && id.Name == x {
+				if y, ok := v.Y.(*ast.Ident); ok && y.Name == "nil" {
+					return
+				}
+			}
+		case *ast.Ident:
+			if v.Name == x {
+				found = true
+			}
+			return
+		}
+		ast.Inspect(n, func(c ast.Node) bool {
+			if c == n || c == nil {
+				return true
+			}
+			walk(c)
+			return false
+		})
+	}
+	walk(n)
+	return found
 }
 
 type pkgInfo struct {
@@ -155,6 +219,14 @@ type analyzer struct {
 	release bool // release mode: an escape forgets, instead of stopping
 	stopped bool
 	depth   int
+	depNest int        // > 0: inside a branch selected by a condition on the pooled object's residual state
+	rets    [][]retEnv // per inlined method: the states at its return statements
+}
+
+// the state at a return statement of an inlined method (that path continues in the caller)
+type retEnv struct {
+	e   env
+	dep bool
 }
 
 // does the expression mention x other than as the base of a selector x.f ?
@@ -203,6 +275,12 @@ func classify(rhs ast.Expr, x, field string) fstate {
 	case *ast.CompositeLit:
 		if len(v.Elts) == 0 {
 			return sZero
+		}
+	case *ast.CallExpr: // make(T, 0) / make(T, 0, c): visibly empty, like nil
+		if id, ok := v.Fun.(*ast.Ident); ok && id.Name == "make" && len(v.Args) >= 2 {
+			if l, ok := v.Args[1].(*ast.BasicLit); ok && l.Value == "0" {
+				return sZero
+			}
 		}
 	case *ast.SliceExpr:
 		if sel, ok := v.X.(*ast.SelectorExpr); ok && v.Low == nil && v.High != nil && !v.Slice3 {
@@ -294,9 +372,32 @@ func (a *analyzer) stmt(s ast.Stmt, x string, e env) (env, bool, error) {
 					}
 					recv := m.Recv.List[0].Names[0].Name
 					a.depth++
-					e2, _, err := a.block(m.Body.List, recv, e)
+					a.rets = append(a.rets, nil)
+					e2, term, err := a.block(m.Body.List, recv, e)
+					rs := a.rets[len(a.rets)-1]
+					a.rets = a.rets[:len(a.rets)-1]
 					a.depth--
-					return e2, false, err
+					if err != nil || a.stopped {
+						return e2, false, err
+					}
+					// every path through the method ends here: the fall-through and each early return
+					var outs []env
+					dep := false
+					if !term {
+						outs = append(outs, e2)
+					}
+					for _, r := range rs {
+						outs = append(outs, r.e)
+						dep = dep || r.dep
+					}
+					if len(outs) == 0 {
+						return e2, false, nil
+					}
+					r := outs[0]
+					for _, o := range outs[1:] {
+						r = mergeEnv(r, o, dep)
+					}
+					return r, false, nil
 				}
 			}
 		}
@@ -307,6 +408,11 @@ func (a *analyzer) stmt(s ast.Stmt, x string, e env) (env, bool, error) {
 	case *ast.IfStmt:
 		if v.Init != nil && mentionsBare(v.Init, x) {
 			return a.escape(e), false, nil
+		}
+		dep := readsResidual(v.Cond, x, e) || (v.Init != nil && readsResidual(v.Init, x, e))
+		if dep {
+			a.depNest++
+			defer func() { a.depNest-- }()
 		}
 		et, tt, err := a.block(v.Body.List, x, e)
 		if err != nil {
@@ -338,8 +444,18 @@ func (a *analyzer) stmt(s ast.Stmt, x string, e env) (env, bool, error) {
 		case te:
 			return et, false, nil
 		}
-		return mergeEnv(et, ee), false, nil
+		return mergeEnv(et, ee, dep), false, nil
 	case *ast.SwitchStmt:
+		dep := readsResidual(v.Tag, x, e) || (v.Init != nil && readsResidual(v.Init, x, e))
+		for _, c := range v.Body.List {
+			for _, ce := range c.(*ast.CaseClause).List {
+				dep = dep || readsResidual(ce, x, e)
+			}
+		}
+		if dep {
+			a.depNest++
+			defer func() { a.depNest-- }()
+		}
 		hasDefault := false
 		var outs []env
 		for _, c := range v.Body.List {
@@ -366,10 +482,15 @@ func (a *analyzer) stmt(s ast.Stmt, x string, e env) (env, bool, error) {
 		}
 		r := outs[0]
 		for _, o := range outs[1:] {
-			r = mergeEnv(r, o)
+			r = mergeEnv(r, o, dep)
 		}
 		return r, false, nil
 	case *ast.ForStmt:
+		dep := readsResidual(v.Cond, x, e) || (v.Init != nil && readsResidual(v.Init, x, e))
+		if dep {
+			a.depNest++
+			defer func() { a.depNest-- }()
+		}
 		eb, _, err := a.block(v.Body.List, x, e)
 		if err != nil {
 			return nil, false, err
@@ -377,8 +498,13 @@ func (a *analyzer) stmt(s ast.Stmt, x string, e env) (env, bool, error) {
 		if a.stopped {
 			return e, false, nil
 		}
-		return mergeEnv(e, eb), false, nil
+		return mergeEnv(e, eb, dep), false, nil
 	case *ast.RangeStmt:
+		dep := readsResidual(v.X, x, e)
+		if dep {
+			a.depNest++
+			defer func() { a.depNest-- }()
+		}
 		eb, _, err := a.block(v.Body.List, x, e)
 		if err != nil {
 			return nil, false, err
@@ -386,12 +512,15 @@ func (a *analyzer) stmt(s ast.Stmt, x string, e env) (env, bool, error) {
 		if a.stopped {
 			return e, false, nil
 		}
-		return mergeEnv(e, eb), false, nil
+		return mergeEnv(e, eb, dep), false, nil
 	case *ast.BlockStmt:
 		return a.block(v.List, x, e)
 	case *ast.ReturnStmt:
 		if mentionsBare(v, x) {
 			a.stopped = !a.release || a.stopped
+		}
+		if a.depth > 0 && len(a.rets) > 0 && !a.stopped { // a return of an inlined method: the path goes on in the caller
+			a.rets[len(a.rets)-1] = append(a.rets[len(a.rets)-1], retEnv{e, a.depNest > 0})
 		}
 		return e, true, nil
 	case *ast.BranchStmt: // continue / break: this path leaves the block
